@@ -487,48 +487,68 @@ func (r *Report) tryReplay(dir string, o *Obligation, info map[string]interface{
 	if o.Model == nil || len(o.Model) == 0 || os.Getenv("GOVC_NO_REPLAY") != "" {
 		return "", false
 	}
-	src, why, ok := buildReplay(o)
-	if !ok {
-		info["replay"] = "not attempted: " + why
-		return "", false
-	}
 	fn := o.Ex.fn
+	if fn == nil || fn.Pkg == nil {
+		return "", false
+	}
 	pkgRel := strings.TrimPrefix(strings.TrimPrefix(fn.Pkg.Pkg.Path(), r.V.rootPath), "/")
-	cur, err := runReplay(repoDir, pkgRel, src, "current")
-	if err != nil {
-		info["replay"] = "current tree: " + err.Error()
-		return "", false
-	}
-	// reference tree
+	models := append([]map[string]string{o.Model}, o.AltModels...)
+	refDir := ""
+	defer func() {
+		if refDir != "" {
+			exec.Command("git", "-C", "/repo", "worktree", "remove", "--force", refDir).Run()
+			os.RemoveAll(refDir)
+		}
+	}()
 	ref := referenceCommit(r.VerifDir)
-	refDir, err := os.MkdirTemp("", "govc-ref-")
-	if err != nil {
-		return "", false
+	for mi, model := range models {
+		saved := o.Model
+		o.Model = model
+		src, why, ok := buildReplay(o)
+		o.Model = saved
+		if !ok {
+			info["replay"] = "not attempted: " + why
+			return "", false
+		}
+		cur, err := runReplay(repoDir, pkgRel, src, "current")
+		if err != nil {
+			info["replay"] = "current tree: " + err.Error()
+			return "", false
+		}
+		if refDir == "" {
+			d, err := os.MkdirTemp("", "govc-ref-")
+			if err != nil {
+				return "", false
+			}
+			if out, err := exec.Command("git", "-C", "/repo", "worktree", "add", "--detach", "--force", d, ref).CombinedOutput(); err != nil {
+				os.RemoveAll(d)
+				info["replay"] = "cannot materialise reference commit: " + truncate(string(out), 300)
+				return "", false
+			}
+			refDir = d
+		}
+		refOut, err := runReplay(refDir, pkgRel, src, "reference")
+		if err != nil {
+			info["replay"] = "reference tree: " + err.Error()
+			return "", false
+		}
+		if mi == 0 || cur != refOut {
+			info["replay_current"] = cur
+			info["replay_reference"] = refOut
+			info["replay_reference_commit"] = ref
+		}
+		if cur == refOut {
+			info["replay"] = fmt.Sprintf("none of the %d solver counterexamples tried distinguishes the current tree from the proved reference tree", mi+1)
+			continue
+		}
+		base := filepath.Join(dir, sanitize(o.Name))
+		os.WriteFile(base+"_test.go.txt", []byte(src), 0644)
+		info["model"] = model
+		info["replay"] = "REPRODUCED: on the solver's counterexample the current tree behaves differently from the reference tree (on which this obligation is proved for all inputs)"
+		info["replay_test"] = base + "_test.go.txt"
+		b, _ := json.MarshalIndent(info, "", " ")
+		os.WriteFile(base+".json", b, 0644)
+		return base + ".json", true
 	}
-	defer os.RemoveAll(refDir)
-	gitRepo := "/repo"
-	if out, err := exec.Command("git", "-C", gitRepo, "worktree", "add", "--detach", "--force", refDir, ref).CombinedOutput(); err != nil {
-		info["replay"] = "cannot materialise reference commit: " + truncate(string(out), 300)
-		return "", false
-	}
-	defer exec.Command("git", "-C", gitRepo, "worktree", "remove", "--force", refDir).Run()
-	refOut, err := runReplay(refDir, pkgRel, src, "reference")
-	if err != nil {
-		info["replay"] = "reference tree: " + err.Error()
-		return "", false
-	}
-	info["replay_current"] = cur
-	info["replay_reference"] = refOut
-	info["replay_reference_commit"] = ref
-	if cur == refOut {
-		info["replay"] = "the model input does not distinguish the current tree from the proved reference tree"
-		return "", false
-	}
-	base := filepath.Join(dir, sanitize(o.Name))
-	os.WriteFile(base+"_test.go.txt", []byte(src), 0644)
-	info["replay"] = "REPRODUCED: on the solver's counterexample the current tree behaves differently from the reference tree (on which this obligation is proved for all inputs)"
-	info["replay_test"] = base + "_test.go.txt"
-	b, _ := json.MarshalIndent(info, "", " ")
-	os.WriteFile(base+".json", b, 0644)
-	return base + ".json", true
+	return "", false
 }
